@@ -44,6 +44,9 @@ BASES = [
     "2018_JCP_149_064113/dipoles/dipole_motion.ini",
     "2018_JCP_149_064113/dipoles/atom_factors.ini",
     "2018_JCP_149_064113/dipoles/cell_bounded.ini",
+    "2018_JCP_149_064113/dipoles/cell_veto.ini",                       # cell-veto tables from a *sampling* estimator
+    "2018_JCP_149_064113/dipoles/dipole_factors_outside_first.ini",
+    "2018_JCP_149_064113/water/coulomb_cell_veto_lj_inverted.ini",
     "2018_JCP_149_064113/water/coulomb_power_bounded_lj_inverted.ini",
     "2018_JCP_149_064113/water/single_molecule.ini",
     "hard_disk_dipoles/single_hard_disk_dipole.ini",
@@ -107,7 +110,8 @@ def dump_case(draw):
         for sec, val in configs.sections_with(text, "number_event_handlers"):
             edits.append([sec, "number_event_handlers", str(int(val) * (N - 1))])
         for sec, val in configs.sections_with(text, "cells_per_side"):
-            if draw(st.booleans()):
+            # (grids must keep more than 2*neighbor_layers+1 cells on one axis; the water files use 2 layers)
+            if configs.get_option(text, sec, "neighbor_layers", "1").strip() == "1" and draw(st.booleans()):
                 edits.append([sec, "cells_per_side", "3, 3, 4"])   # small grid: several units per nearby region
     return {"base": base, "edits": edits, "seed": draw(st.integers(0, 2 ** 31)), "dumps": draw(st.integers(3, 6)),
             "events": draw(st.integers(500, 1200)), "phase": round(draw(st.floats(0.05, 0.95)), 3)}
